@@ -81,6 +81,12 @@ def run_case(desc):
         unit = gm.monolayer(c["mat"])
         s = unit.repeat((c["rep"][0], c["rep"][1], 1))
         want_pbc = 2
+        if desc.get("cform") == "zero" and not desc.get("mono_ttt"):
+            # the form ase.build.mx2 / graphene return without `vacuum`: zero third cell vector, pbc TTF
+            cz = np.asarray(s.get_cell()).copy()
+            cz[2] = 0.0
+            s.set_cell(cz, scale_atoms=False)
+            out.cls("monolayer:zero-c-vector")
         if desc.get("mono_ttt"):
             # the usual storage form of a monolayer in a plane-wave code: fully periodic box with vacuum (16 A + thickness);
             # with the presentation's translation the layer may lie across the periodic boundary of the vacuum axis
